@@ -71,7 +71,7 @@ def gen_case(rng, min_remaps=2, micro=0.0, defaults=False, big=False):
     span = 4 if dt == "f32" else rng.choice([4, 64, 10**6])
     lo0, hi0 = (-span, span) if contain else rng.choice([(-1, 1), (span, 2 * span), (0, F(1, 2))])
     case = {"kind": "sbr", "dims": dims, "lo": [q(F(lo0))] * nd, "hi": [q(F(hi0))] * nd, "dtype": dt, "freq": freq,
-            "cap": cap, "layout": rng.choice(["", "s", "v", "o", "sv", "om", "b", "vb", "u", "uw", "su", "su", "t", "ot"]), "sol_dim": rng.choice([1, 2]),
+            "cap": cap, "layout": rng.choice(["", "s", "v", "o", "sv", "om", "b", "vb", "u", "uw", "su", "su", "t", "ot", "p", "p", "sp"]), "sol_dim": rng.choice([1, 2]),
             "off": q(rng.choice([F(0), F(-8), F(3, 2)]))}
     style = rng.choice(["uniform", "dups", "drift", "far"] + (["micro"] if dt == "f64" else []))
     if big:
